@@ -23,8 +23,10 @@ import (
 	"errors"
 	"fmt"
 	"io"
+	"maps"
 	"net/http"
 	"net/url"
+	"slices"
 	"time"
 
 	"github.com/rs/zerolog"
@@ -186,10 +188,14 @@ func (e Endpoint) Hash() []byte {
 	hash.Write(stringx.ToBytes(e.URL))
 	hash.Write(stringx.ToBytes(e.Method))
 
+	// the headers are hashed in a defined order (map iteration order is random, which would result in
+	// different hash values for the very same endpoint) and separated from each other
 	buf := bytes.NewBufferString("")
-	for k, v := range e.Headers {
+	for _, k := range slices.Sorted(maps.Keys(e.Headers)) {
 		buf.Write(stringx.ToBytes(k))
-		buf.Write(stringx.ToBytes(v))
+		buf.WriteByte(0)
+		buf.Write(stringx.ToBytes(e.Headers[k]))
+		buf.WriteByte(0)
 	}
 
 	hash.Write(buf.Bytes())
